@@ -310,6 +310,12 @@ def step (s : State) (toks : List String) : State × String :=
     | some ns, some p, some n, some l =>
       ({ s with inst := withStore s.others ns p n l, st := {} }, "ok")
     | _, _, _, _ => (s, "bad-op")
+  -- a tree in which one server hosts two nodes (which then have the same node id): the nodes list says so
+  | ["cfg", nodes, par, n, aggs, "repeated-server"] =>
+    match parseNodes nodes, optNat par, n.toNat?, Util.natList aggs with
+    | some ns, some p, some n, some l =>
+      ({ s with inst := withStore s.others ns p n l, st := {} }, "ok")
+    | _, _, _, _ => (s, "bad-op")
   | ["treearrives"] =>
     match s.st.parked with
     | none => (s, "ok")
